@@ -39,8 +39,12 @@ def serialize_json(
     serialize = partial(
         _serialize_element, object_refs=True, definitions=definitions
     )
+    primary_schema = serialize(primary)
+    if primary_schema is False:
+        # `Nothing()`: the equivalent object form can hold "definitions".
+        primary_schema = {"not": {}}
     schema: Dict[str, Any] = {
-        **serialize(primary),
+        **primary_schema,
         "definitions": {
             object_class.__name__: serialize(object_class)
             for object_class in object_classes
